@@ -78,6 +78,20 @@ func (e *Exec) readerContent(st *State, r Value, depth int) (chunks []*Str, sour
 		}
 		switch o := st.heap[x.Obj].V.(type) {
 		case *StructV:
+			if t := st.heap[x.Obj].Typ; len(x.Path) == 0 && t != nil && t.String() == "io.LimitedReader" && len(o.F) == 2 {
+				// transparent when the limit is the length of the very bytes underneath; a limit taken from somewhere
+				// else (the wire length of a compressed body applied to the decoded stream) may cut the content short
+				in, srcs, stt := e.readerContent(st, o.F[0], depth+1)
+				if stt != "ok" {
+					return nil, srcs, stt
+				}
+				n, _ := o.F[1].(*sym.Term)
+				if d := e.directData(st, o.F[0], 0); d != nil && n != nil && (n == e.lenOf(d) || e.C.Sle(e.i64(d.Max), n).IsTrue()) {
+					return in, srcs, "ok"
+				}
+				e.badPartial = true
+				return nil, srcs, "bad"
+			}
 			if t := st.heap[x.Obj].Typ; len(x.Path) == 0 && t != nil && t.String() == "bytes.Buffer" {
 				d, ok := o.F[0].(*Str)
 				if !ok || d.Nil || (d.IsConc && d.Conc == "") {
@@ -134,6 +148,39 @@ func (e *Exec) readerContent(st *State, r Value, depth int) (chunks []*Str, sour
 		}
 	}
 	return nil, nil, "unknown"
+}
+
+// directData: the byte string a reader delivers unchanged (no decompressor in between), nil if there is none.
+func (e *Exec) directData(st *State, r Value, depth int) *Str {
+	if depth > 6 {
+		return nil
+	}
+	switch x := r.(type) {
+	case *Iface:
+		if x.T != nil {
+			return e.directData(st, x.V, depth+1)
+		}
+	case *StructV:
+		if len(x.F) == 1 {
+			return e.directData(st, x.F[0], depth+1)
+		}
+	case *Ptr:
+		if x.IsNil() {
+			return nil
+		}
+		switch o := st.heap[x.Obj].V.(type) {
+		case *StructV:
+			if len(x.Path) == 0 && len(o.F) == 1 {
+				return e.directData(st, o.F[0], depth+1)
+			}
+		case *ModelV:
+			if o.Kind == "verif.body" || o.Kind == "bytes.Reader" {
+				d, _ := o.F["data"].(*Str)
+				return d
+			}
+		}
+	}
+	return nil
 }
 
 func (e *Exec) consumeSources(st *State, srcs []*Ptr) {
